@@ -64,8 +64,8 @@ fn ref_date<const N: usize>(b: &[u8; N], n: usize) -> Option<(i64, i64, i64)> {
     Some((y, m, d))
 }
 /// RFC 3339 partial-time `HH:MM:SS[.f+]` with 1..=9 fraction digits; returns (h, m, s, nanosecond).
-fn ref_time(b: &[u8; BUF], n: usize) -> Option<(i64, i64, i64, i64)> {
-    if n < 8 || n == 9 || n > 18 { return None; }
+fn ref_time<const N: usize>(b: &[u8; N], n: usize) -> Option<(i64, i64, i64, i64)> {
+    if n < 8 || n == 9 || n > 18 || n > N { return None; }
     if b[2] != b':' || b[5] != b':' { return None; }
     let h = dg2(b[0], b[1])?;
     let m = dg2(b[3], b[4])?;
@@ -129,6 +129,7 @@ fn c09_print_date() {
 //@doc for EVERY civil time (00:00:00..=23:59:59.999999999), default printer configuration: the text is `HH:MM:SS` (8 bytes) iff the nanosecond is 0, otherwise `HH:MM:SS.` + 1..=9 digits whose last digit is not '0' (trailing zeros trimmed), and the independent reference reader decodes it to exactly (hour, minute, second, nanosecond)  [decode . print = id on Time]
 #[kani::proof]
 #[kani::unwind(11)]
+#[kani::solver(kissat)]
 fn c09_print_time() {
     let (h, m, s, ns) = any_time_fields();
     let time = mk_time(h, m, s, ns);
@@ -216,6 +217,20 @@ fn c09_parse_date_spec_13() {
     }
 }
 
+// Self-checking stubs: they replace parser stages that must be UNREACHABLE for the inputs of a harness and panic when
+// called, so a passing harness proves the unreachability instead of assuming it (nothing is trusted).  They are needed
+// because CBMC's symbolic execution cannot see that the rest of the input is empty and would otherwise unroll the time,
+// offset and RFC 9557 annotation parsers (> 15 min of symbolic execution alone, measured).
+fn unreachable_time_spec<'i>(_p: &DateTimeParser, _input: &'i [u8]) -> Result<Parsed<'i, ParsedTime<'i>>, Error> {
+    panic!("parse_time_spec reached")
+}
+fn unreachable_offset<'i>(_p: &DateTimeParser, _input: &'i [u8]) -> Result<Parsed<'i, Option<ParsedOffset>>, Error> {
+    panic!("parse_offset reached")
+}
+fn unreachable_annotations<'i>(_p: &DateTimeParser, _input: &'i [u8]) -> Result<Parsed<'i, ParsedAnnotations<'i>>, Error> {
+    panic!("parse_annotations reached")
+}
+
 /// the public entry point behind `<civil::Date as FromStr>::from_str`, checked against the reference reader
 fn check_parse_date<const N: usize>(b: &[u8; N]) {
     let r = crate::fmt::temporal::DateTimeParser::new().parse_date(b);
@@ -235,6 +250,9 @@ fn check_parse_date<const N: usize>(b: &[u8; N]) {
 //@timeout 900
 //@doc for EVERY 10-byte string of the printer's positive-year shape `????-??-??` (both '-' in place, the other 8 bytes arbitrary): the public date parser returns Ok(d) exactly when the independent reference reader (the same one that decodes the printer's output) finds a Gregorian date, and d has exactly those fields; everything else is Err, never a panic  [parse = decode].  Composition with c09_print_date: print emits this shape and decode(print(d)) = d, hence parse(print(d)) = Ok(d) for every Date with year >= 0.
 #[kani::proof]
+#[kani::stub(DateTimeParser::parse_time_spec, unreachable_time_spec)]
+#[kani::stub(DateTimeParser::parse_offset, unreachable_offset)]
+#[kani::stub(DateTimeParser::parse_annotations, unreachable_annotations)]
 #[kani::unwind(8)]
 fn c09_parse_date_10() {
     let mut b: [u8; 10] = kani::any();
@@ -250,6 +268,9 @@ fn c09_parse_date_10() {
 //@timeout 900
 //@doc for EVERY 13-byte string of the printer's negative-year shape `s??????-??-??` (s = '-' as printed, or '+'; both '-' separators in place, the other 10 bytes arbitrary): the public date parser returns Ok(d) exactly when the reference reader finds a Gregorian date with year in -9999..=9999 ("-000000" is Err), and d has exactly those fields  [parse = decode].  Composition with c09_print_date: parse(print(d)) = Ok(d) for every Date with year < 0.
 #[kani::proof]
+#[kani::stub(DateTimeParser::parse_time_spec, unreachable_time_spec)]
+#[kani::stub(DateTimeParser::parse_offset, unreachable_offset)]
+#[kani::stub(DateTimeParser::parse_annotations, unreachable_annotations)]
 #[kani::unwind(8)]
 fn c09_parse_date_13() {
     let mut b: [u8; 13] = kani::any();
@@ -257,4 +278,112 @@ fn c09_parse_date_13() {
     b[10] = b'-';
     // two concrete signs (a symbolic sign byte would make the parser's 4-digit-year path reachable for symbolic execution)
     if kani::any() { b[0] = b'-'; check_parse_date(&b); } else { b[0] = b'+'; check_parse_date(&b); }
+}
+
+// ---------------------------------------------------------------- parser side: times
+/// Reference PREFIX reader for the Temporal `TimeSpec` production on the first n bytes of b (ISO 8601 time of day,
+/// extended `HH[:MM[:SS[.f{1,9}]]]` or basic `HH[MM[SS[.f{1,9}]]]`, decimal sign '.' or ',', second 00..=60):
+/// Some((h, m, s, nanosecond, bytes consumed)) with the RAW second (60 stays 60), or None (not a time).
+fn ref_time_prefix<const N: usize>(b: &[u8; N], n: usize) -> Option<(i64, i64, i64, i64, usize)> {
+    let at = |i: usize| -> Option<u8> { if i < n && i < N { Some(b[i]) } else { None } };
+    let isd = |i: usize| -> bool { match at(i) { Some(c) => dg(c).is_some(), None => false } };
+    let h = dg2(at(0)?, at(1)?)?;
+    if h > 23 { return None; }
+    let extended = at(2) == Some(b':');
+    let mut p = 2;
+    if extended { p = 3; } else if !(isd(2) && isd(3)) { return Some((h, 0, 0, 0, 2)); }
+    let m = dg2(at(p)?, at(p + 1)?)?;
+    if m > 59 { return None; }
+    p += 2;
+    if extended {
+        if at(p) != Some(b':') { return Some((h, m, 0, 0, p)); }
+        p += 1;
+    } else if !(isd(p) && isd(p + 1)) {
+        return Some((h, m, 0, 0, p));
+    }
+    let s = dg2(at(p)?, at(p + 1)?)?;
+    if s > 60 { return None; }
+    p += 2;
+    if at(p) != Some(b'.') && at(p) != Some(b',') { return Some((h, m, s, 0, p)); }
+    p += 1;
+    if !isd(p) { return None; }
+    let mut ns: i64 = 0;
+    let mut k = 0;
+    let mut open = true;
+    while k < 9 {
+        ns = ns * 10;
+        if open && isd(p) { ns += (b[p] - b'0') as i64; p += 1; } else { open = false; }
+        k += 1;
+    }
+    Some((h, m, s, ns, p))
+}
+fn hmsn(t: Time) -> (i64, i64, i64, i64) {
+    (t.hour() as i64, t.minute() as i64, t.second() as i64, t.subsec_nanosecond() as i64)
+}
+
+//@harness c09_parse_time_spec
+//@target fmt::temporal::parser::DateTimeParser::{parse_time_spec,parse_hour,parse_minute,parse_second,parse_time_separator} + fmt::util::parse_temporal_fraction + util::parse::{i64,fraction,split,slicer} (src/fmt/temporal/parser.rs, src/fmt/util.rs, src/util/parse.rs)
+//@prop C09
+//@tier thorough
+//@timeout 1500
+//@doc for EVERY byte string of length 0..=18 (18 = the printer's longest time `HH:MM:SS.fffffffff`): parse_time_spec returns Ok exactly when the reference prefix reader finds a time of day (extended or basic form, optional minute/second, '.' or ',' fraction of 1..=9 digits), with exactly that hour, minute, nanosecond and unconsumed rest, and second = min(raw second, 59) (a leap second `60` is clamped to 59); everything else is Err, never a panic
+#[kani::proof]
+#[kani::unwind(11)]
+#[kani::solver(kissat)]
+fn c09_parse_time_spec() {
+    let b: [u8; 18] = kani::any();
+    let n: usize = kani::any();
+    kani::assume(n <= 18);
+    let r = DateTimeParser::new().parse_time_spec(&b[..n]);
+    match ref_time_prefix(&b, n) {
+        None => assert!(r.is_err()),
+        Some((h, m, s, ns, used)) => match r {
+            Err(_) => assert!(false, "a valid time was rejected"),
+            Ok(p) => {
+                assert!(hmsn(p.value.time) == (h, m, if s == 60 { 59 } else { s }, ns));
+                assert!(p.input.len() == n - used);
+            }
+        },
+    }
+}
+
+fn unreachable_offset_parser<'i>(_p: &offset::Parser, _input: &'i [u8]) -> Result<Parsed<'i, ParsedOffset>, Error> {
+    panic!("offset::Parser::parse reached")
+}
+fn unreachable_annotation_parser<'i>(_p: &rfc9557::Parser, _input: &'i [u8]) -> Result<Parsed<'i, ParsedAnnotations<'i>>, Error> {
+    panic!("rfc9557::Parser::parse reached")
+}
+
+//@harness c09_parse_time
+//@target fmt::temporal::DateTimeParser::parse_time (= <civil::Time as FromStr>::from_str) -> parser::DateTimeParser::parse_temporal_time -> {parse_temporal_datetime (must fail), parse_time_spec, parse_offset, parse_annotations} -> Parsed::into_full (src/fmt/temporal/mod.rs, parser.rs)
+//@prop C09
+//@tier thorough
+//@timeout 1500
+//@doc for EVERY string of the printer's time shape -- length 8 `??:??:??` or 10..=18 `??:??:??.d+` with both ':' and the '.' in place, the six H/M/S bytes arbitrary, the 1..=9 fraction bytes ASCII digits: the public time parser returns Ok(t) exactly when the independent RFC 3339 reference reader (the one that decodes the printer's output) finds hour <= 23, minute <= 59, second <= 60, and t has exactly those fields with second = min(second, 59); everything else is Err, never a panic  [parse = decode on the printer's image, where second <= 59].  The offset and RFC 9557 annotation parsers are proved unreachable for these inputs (self-checking stubs).  Composition with c09_print_time: print emits this shape and decode(print(t)) = t, hence parse(print(t)) = Ok(t) for every Time.
+#[kani::proof]
+#[kani::stub(crate::fmt::offset::Parser::parse, unreachable_offset_parser)]
+#[kani::stub(crate::fmt::rfc9557::Parser::parse, unreachable_annotation_parser)]
+#[kani::unwind(11)]
+#[kani::solver(kissat)]
+fn c09_parse_time() {
+    let mut b: [u8; 18] = kani::any();
+    let n: usize = kani::any();
+    kani::assume(n == 8 || (10 <= n && n <= 18));
+    b[2] = b':';
+    b[5] = b':';
+    if n > 8 { b[8] = b'.'; }
+    let mut i = 9;
+    while i < 18 { if i < n { kani::assume(dg(b[i]).is_some()); } i += 1; }
+    let r = crate::fmt::temporal::DateTimeParser::new().parse_time(&b[..n]);
+    // the independent reader of the printer's output accepts second <= 59 only; RFC 3339 also allows 60
+    let leap = b[6] == b'6' && b[7] == b'0';
+    let mut c = b;
+    if leap { c[6] = b'5'; c[7] = b'9'; }
+    match ref_time(&c, n) {
+        None => assert!(r.is_err()),
+        Some(hmsn_ref) => match r {
+            Err(_) => assert!(false, "a valid time was rejected"),
+            Ok(t) => assert!(hmsn(t) == hmsn_ref),
+        },
+    }
 }
